@@ -9,7 +9,15 @@ references everywhere) and corpus schemas (tests/test_cases/examples) are re-arr
   * location spellings (relative, dotted, x/../, absolute path, file: URL) of includes, imports and of
     the schema itself,
   * import order of the other namespaces,
-  * build twice, shallow copy, maps.copy()+build, pickle round trip,
+  * HISTORIES of storage operations on one schema object: shallow copy, maps.copy()+build, pickle round trip,
+    clear()+build() (once, twice, after/before a pickle or a copy), a rebuild triggered by registering one more
+    namespace,
+  * components that are resolved through a maps-level REGISTRY of XsdGlobals beside the six staged maps
+    (harness/lib_c09reg.py): xs:key/xs:unique referred by an xs:keyref (or an XSD 1.1 `ref`) declared on another
+    element (key on the same element / a nested local element / a local element of a named type / of a global
+    group / a global element used by reference), substitution groups (abstract head, member of member, blocked),
+    notations (xs:NOTATION enumerations), types reached by xsi:type and by XSD 1.1 type alternatives, with probe
+    instances that exercise exactly those references; a quarter of the schemas is built with XMLSchema11,
 and every arrangement is compared with the base arrangement on: sorted (class, qname) of the global
 components, and for every probe instance (valid and seeded-invalid) the error list and the decoded data.
 
@@ -21,6 +29,14 @@ the DFS event trace (enter/exit/hit/circ/missing), the duplicate-declaration err
 include/import locations and the registration order of included documents are compared with the model.
 For arrangement B the model is ALSO run with the dependencies observed in arrangement A (purity of the
 constructors: the looked-up names do not depend on the order) and must predict B's trace.
+
+Tie of "building twice" (XsVerif/Model/Rebuild.lean, section Rebuild of Props/C09.lean): after every step of a
+history the registries of the real XsdGlobals (the `_store` of the staged maps, maps.identities,
+maps.substitution_groups, the object every keyref is bound to, the cached views of the schemas) are read with the
+GENERATION of every object (which build created it: harness/lib_c09reg.Epochs) and compared with the model run on
+the requests that the real components issue; the model clears like /repo does, so an entry that survives clear()
+is a mismatch even where the surviving object behaves like the new one, and the number of "not found" errors of
+the identity probes must be the model's (= the dangling references, theorem keyref_errors_after_any_history).
 """
 from __future__ import annotations
 
@@ -35,27 +51,39 @@ import random
 from pathlib import Path
 from typing import Any, Optional
 
-from harness.core import Ctx, Driver, REPO
+from harness.core import Ctx, Driver, REPO, VERIF
 from harness.lib_schemagen import Schema, HEAD, TAIL, NSA, NSB, TNS
+from harness.lib_c09reg import Features, Epochs, registry_view
 
+FINDINGS_FILE = VERIF / 'notes' / 'findings' / 'C09.json'
 PROPS = 'XsVerif.Props.C09'
 AUDIT = 'XsVerif.Audit.C09'
 LEAN_TARGETS = ['XsVerif.Props.C09', 'drv_c09']
-LEANCHECK = ['XsVerif.Model.Staged', 'XsVerif.Lemmas.Staged', 'XsVerif.Props.C09']
-RULE = ('a case = (schema, arrangement, probe set) compared with the base arrangement of the same schema; '
-        'non-trivial = the real build of the arrangement resolved at least one forward reference on demand '
-        '(an `enter` nested inside another `enter` in the observed trace) and the probe set produced both '
-        'valid and invalid verdicts; distinct by canonical JSON of (schema id, arrangement description)')
+LEANCHECK = ['XsVerif.Model.Staged', 'XsVerif.Lemmas.Staged', 'XsVerif.Model.Rebuild', 'XsVerif.Lemmas.Rebuild',
+             'XsVerif.Props.C09']
+RULE = ('a case = (schema, arrangement or step of a storage history, probe set) compared with the base arrangement of '
+        'the same schema; non-trivial = the real build of the arrangement resolved at least one forward reference on '
+        'demand (an `enter` nested inside another `enter` in the observed trace) and the probe set produced both '
+        'valid and invalid verdicts; distinct by canonical JSON of (schema id, arrangement description, history '
+        'prefix).  Histogram tags: registry:* = which maps-level registry the schema exercises (identity/<where the '
+        'referenced key is declared>, substitution-group, notation, types-by-xsi:type, types-by-alternative), '
+        'probe[<purpose>]:valid|invalid = verdict of the dedicated probe on the base arrangement, storage:<operation>'
+        '[/after-n-rebuilds], history-step:generation-n = registry states compared with the model, processor:*')
 TRUSTED = ['component constructors are modelled by the free interpretation (a component = tree of what its '
            'constructor looked up); their purity is monitored (deps observed in one arrangement must predict '
            'the trace of every other arrangement), not proved',
            'urlsplit / pathlib / the file system: only the dot-segment normalisation of joined paths is modelled',
-           'copy / pickle / rebuild are exercised on the real code, not modelled']
-ASSUMPTIONS = ['no circular definitions and pairwise distinct global names per symbol space (hypotheses of '
+           'copy / pickle are exercised on the real code; of a rebuild the registries and their clearing are modelled '
+           '(Model/Rebuild.lean), objects being abstracted to (declaration, generation)']
+ASSUMPTIONS = ['identity constraints: one declaration per name (registry_spec: Functional); the generation tie reads '
+               'the schema-level cached views (root_elements, simple_types, complex_types, components) before each '
+               'rebuild so that a view that survives a rebuild is seen',
+               'no circular definitions and pairwise distinct global names per symbol space (hypotheses of '
                'arrangement_independent; circular and duplicate declarations are generated too, for the '
                'model correspondence only: there the reported error legitimately depends on the order)',
                'redefine/override are out of scope of the order-independence statement (they are ordered by definition)']
 
+MEMO_BUILTINS = ('{http://www.w3.org/2001/XMLSchema}anySimpleType', '{http://www.w3.org/2001/XMLSchema}anyAtomicType')
 KINDS = {'NotationsMap': 0, 'AttributesMap': 1, 'AttributeGroupsMap': 2, 'TypesMap': 3, 'ElementsMap': 4,
          'GroupsMap': 5}
 
@@ -97,7 +125,10 @@ class Recorder:
 
         def getitem(self, qname):
             r = cls.active
-            if r is not None and r.stack:
+            # (xs:anySimpleType / xs:anyAtomicType are read through cached properties of the maps
+            #  — xsd_globals.py:176-186 — so only the FIRST reader of a build looks them up: a memo of a
+            #  built-in without dependencies, not a dependency of that reader)
+            if r is not None and r.stack and qname not in MEMO_BUILTINS:
                 top = r.stack[-1]
                 name = f'{KINDS[type(self).__name__]}|{qname}'
                 r.deps.setdefault(top, []).append(name)
@@ -325,9 +356,15 @@ def open_source(main: str, how: str) -> str:
 # =============================================================================================
 #  observation of the real code
 # =============================================================================================
+EXTRA_NS = 'urn:c09-extra'
+EXTRA_XSD = ('<xs:schema xmlns:xs="http://www.w3.org/2001/XMLSchema" targetNamespace="urn:c09-extra" '
+             'xmlns:x="urn:c09-extra"><xs:simpleType name="XS"><xs:restriction base="xs:int"/></xs:simpleType>'
+             '<xs:element name="xe" type="x:XS"/></xs:schema>')
+
+
 def globals_of(schema: Any) -> list:
     return sorted([type(c).__name__, c.name] for c in schema.maps.iter_globals()
-                  if not c.name.startswith(('{http://www.w3.org/', 'xml:')))
+                  if not c.name.startswith(('{http://www.w3.org/', 'xml:', '{urn:c09-')))
 
 
 _ADDR = re.compile(r' at 0x[0-9a-fA-F]+')
@@ -358,10 +395,10 @@ def observe(schema: Any, probes: list[str]) -> dict:
             'schema_errors': sorted(str(e.message) for e in schema.all_errors)}
 
 
-def build_real(main_source: str, validation: str = 'strict') -> tuple[Any, dict]:
+def build_real(main_source: str, validation: str = 'strict', cls: str = 'XMLSchema10') -> tuple[Any, dict]:
     import xmlschema
     with Recorder() as rec:
-        schema = xmlschema.XMLSchema(main_source, validation=validation)
+        schema = getattr(xmlschema, cls)(main_source, validation=validation)
     return schema, rec.view(schema.maps)
 
 
@@ -441,6 +478,8 @@ def flush(ctx: Ctx, batch: Batch, drv: Optional[Driver]) -> None:
         elif kind == 'include':
             if m['order'] != exp:
                 ctx.mismatch('registration order of included documents', case, exp, m['order'])
+        elif kind == 'history':
+            compare_history(ctx, case, exp, m)
     batch.reqs, batch.pend = [], []
 
 
@@ -491,35 +530,272 @@ def location_checks(ctx: Ctx, batch: Batch, case: dict, written: dict, schema: A
                     case, {'registered': real_order, 'files': [d['path'] for d in written['docs']]})
 
 
-def storage_variants(schema: Any) -> list[tuple[str, Any]]:
-    """build twice / copy / pickle on the real object"""
-    out = []
-    out.append(('copy.copy', lambda: copy.copy(schema)))
+# operations of a storage history.  Each returns (schema to observe, kind): kind 'same' = the same object graph
+# (no build happened), 'fresh' = a new XsdGlobals object was built from nothing, 'rebuild' = the SAME XsdGlobals
+# was cleared and built again.  'clear+build' and 'register-namespace+build' change the schema object in place.
+def _op_copy(schema: Any, env: dict) -> tuple[Any, str]:
+    return copy.copy(schema), 'same'
 
-    def maps_copy():
-        m2 = schema.maps.copy()
-        m2.build()
-        return m2.validator
-    out.append(('maps.copy+build', maps_copy))
-    out.append(('pickle', lambda: pickle.loads(pickle.dumps(schema))))
 
-    def rebuild():
+def _op_maps_copy(schema: Any, env: dict) -> tuple[Any, str]:
+    m2 = schema.maps.copy()
+    m2.build()
+    return m2.validator, 'fresh'
+
+
+def _op_pickle(schema: Any, env: dict) -> tuple[Any, str]:
+    return pickle.loads(pickle.dumps(schema)), 'fresh'
+
+
+def _op_rebuild(schema: Any, env: dict) -> tuple[Any, str]:
+    schema.maps.clear()
+    schema.maps.build()
+    return schema, 'rebuild'
+
+
+def _op_rebuild_schema(schema: Any, env: dict) -> tuple[Any, str]:
+    schema.maps.clear()
+    schema.build()
+    return schema, 'rebuild'
+
+
+def _op_register(schema: Any, env: dict) -> tuple[Any, str]:
+    # registering one more (unrelated) namespace un-builds the maps: build() clears and builds everything again
+    if EXTRA_NS not in schema.maps.namespaces:
+        schema.add_schema(EXTRA_XSD, build=True)
+    else:
         schema.maps.clear()
-        schema.maps.build()
-        return schema
-    out.append(('clear+build', rebuild))
+        schema.build()
+    return schema, 'rebuild'
+
+
+def _op_dynamic(schema: Any, env: dict) -> tuple[Any, str]:
+    # an instance validated with use_location_hints=True whose CHILD element carries an xsi:schemaLocation hint for
+    # a namespace that is not loaded: the validator imports it and rebuilds the maps in the middle of the
+    # validation (elements.py:573-600 check_dynamic_context)
+    xml = env.get('dyn_xml')
+    if xml is None or DYN_NS in schema.maps.namespaces:
+        return _op_rebuild_schema(schema, env)
+    def own_elements() -> set:
+        return {id(c) for c in schema.maps.elements.values() if c.schema.meta_schema is not None}
+    before = own_elements()
+    try:
+        list(schema.iter_errors(xml, use_location_hints=True))
+    except Exception as e:   # noqa  (the outcome of THIS validation is not the subject here: it only triggers the
+        #                      rebuild; an escaping error is counted and reported in the evidence notes)
+        env['dyn_raised'] = env.get('dyn_raised', 0) + 1
+        env['dyn_raised_what'] = type(e).__name__ + ': ' + norm_text(str(e))[:120]
+    if DYN_NS not in schema.maps.namespaces or not schema.maps.built or before & own_elements():
+        env['dyn_inert'] = env.get('dyn_inert', 0) + 1      # the hint did not lead to a rebuild: do one explicitly
+        return _op_rebuild_schema(schema, env)
+    return schema, 'rebuild'
+
+
+DYN_NS = 'urn:c09-dyn'
+DYN_XSD = ('<xs:schema xmlns:xs="http://www.w3.org/2001/XMLSchema" targetNamespace="urn:c09-dyn">'
+           '<xs:element name="d" type="xs:int"/></xs:schema>')
+_TAG = re.compile(r'<([A-Za-z_][\w.-]*:[\w.-]+)')
+
+
+def dynamic_instance(xml: str, xsd_path: str) -> Optional[str]:
+    """`xml` with an xsi:schemaLocation hint for DYN_NS on its second element (None when it has no child)"""
+    ms = list(_TAG.finditer(xml))
+    if len(ms) < 2:
+        return None
+    k = ms[1].end()
+    out = xml[:k] + f' xsi:schemaLocation="{DYN_NS} {xsd_path}"' + xml[k:]
+    if 'xmlns:xsi=' not in out:
+        k0 = ms[0].end()
+        out = out[:k0] + ' xmlns:xsi="http://www.w3.org/2001/XMLSchema-instance"' + out[k0:]
     return out
 
 
+OPS = {'copy.copy': _op_copy, 'maps.copy+build': _op_maps_copy, 'pickle': _op_pickle, 'clear+build': _op_rebuild,
+       'clear+schema.build': _op_rebuild_schema, 'register-namespace+build': _op_register,
+       'instance-schemaLocation+build': _op_dynamic}
+REBUILDS = ('clear+build', 'clear+schema.build', 'register-namespace+build', 'instance-schemaLocation+build')
+# quick tier, base arrangement: every operation, a rebuild after a rebuild, and each of copy/pickle both before
+# and after a rebuild
+FULL_HISTORY = ['copy.copy', 'maps.copy+build', 'pickle', 'clear+build', 'pickle', 'instance-schemaLocation+build',
+                'register-namespace+build', 'maps.copy+build']
+
+
+def random_history(rng: random.Random, n: int) -> list[str]:
+    h = [rng.choice(list(OPS)) for _ in range(n)]
+    if not any(o in REBUILDS for o in h):
+        h[rng.randrange(n)] = 'clear+build'
+    return h
+
+
+def storage_variants(schema: Any) -> list[tuple[str, Any]]:
+    """(kept for replay files written before histories existed)"""
+    return [(k, (lambda f=f: f(schema, {})[0])) for k, f in OPS.items()]
+
+
+NOTFOUND = re.compile(r'not found for Xsd\w*(?:Key|Unique)')
+
+
+def check_registries(ctx: Ctx, batch: 'Batch', case: dict, steps: list) -> None:
+    """queue the model run of a history: steps = [(kind, registry view, probe observations, probe meta)]"""
+    req_steps = []
+    exp = []
+    for kind, view, obs, meta in steps:
+        probes = []
+        real_nf = []
+        krs = {k['n']: k for k in view['keyrefs']}
+        for m, o in zip(meta, obs['probes']):
+            if m.get('block') == 'identity' and m['keyref'] in krs:
+                probes.append({'refer': m['refer'], 'own': krs[m['keyref']]['own'], 'keys': m['keys'], 'refs': m['refs']})
+                real_nf.append(sum(1 for e in o['errors'] if len(e) == 3 and NOTFOUND.search(e[2])))
+        req_steps.append({'reqs': view['reqs'], 'fresh': kind == 'fresh', 'probes': probes,
+                          'keyrefs': [{'n': k['n'], 'refer': k['refer'], 'own': k['own']} for k in view['keyrefs']]})
+        exp.append({'store': view['store'], 'idents': view['idents'], 'subst': view['subst'],
+                    'keyrefs': [[k['n'], k['gen']] for k in view['keyrefs']], 'views': view['views'],
+                    'notfound': real_nf})
+    batch.add({'op': 'history', 'steps': req_steps}, 'history', case, exp)
+
+
+def compare_history(ctx: Ctx, case: dict, exp: list, m: dict) -> None:
+    for k, (e, got) in enumerate(zip(exp, m['steps'])):
+        c = dict(case, step=k)
+        g = got['gen']
+        if got['errors']:
+            ctx.mismatch('history: the model refuses registrations that the real build accepted', c, [], got['errors'])
+        for key, what in (('store', 'components held by the staged maps after the step (name, generation)'),
+                          ('idents', 'maps.identities after the step (name, XSD node, generation)'),
+                          ('subst', 'maps.substitution_groups after the step (head, members with generation)'),
+                          ('keyrefs', 'generation of the key/unique object each keyref is bound to'),
+                          ('notfound', "number of 'not found' errors of the identity probes")):
+            if e[key] != got[key]:
+                ctx.mismatch('history: ' + what, c, e[key], got[key])
+        if e['views'] and e['views'] != [got['views']]:
+            ctx.mismatch('history: generation of the components handed out by the cached views of the schemas', c,
+                         e['views'], got['views'])
+        ctx.count('history-step:generation-%d' % min(g, 4))
+
+
+def run_history(ctx: Ctx, batch: 'Batch', schema: Any, history: list, case: dict, base_obs: dict, probes: list,
+                meta: list, fail_case: dict, base_view: Optional[dict], nontrivial: bool, tie: bool,
+                model_build: bool = True) -> None:
+    ep = Epochs()
+    ep.new_step()
+    steps = [('fresh', registry_view(schema, ep), base_obs, meta)] if tie else []
+    cur = schema
+    done: list = []
+    rebuilds = 0
+    last_cur = steps[0][1] if tie else None
+    env: dict = {'dyn_xml': None}
+    if 'instance-schemaLocation+build' in history:
+        for x, o in zip(probes, base_obs['probes']):
+            if not o['errors'] and not os.path.exists(x[:200]):
+                env['dyn_xml'] = dynamic_instance(x, dyn_file())
+                if env['dyn_xml']:
+                    break
+    for name in history:
+        done.append(name)
+        scase = dict(case, storage=name, history=list(done))
+        try:
+            with Recorder() as rec:
+                s2, kind = OPS[name](cur, env)
+            v2 = rec.view(s2.maps)
+            o2 = observe(s2, probes)
+        except Exception as e:   # noqa
+            ctx.failure('storage operation fails: ' + name, dict(fail_case, **scase),
+                        {'error': type(e).__name__, 'message': norm_text(str(e))[:300]})
+            break
+        ctx.case(scase, nontrivial, tag='storage:' + name + ('/after-%d-rebuilds' % min(rebuilds, 2) if rebuilds else ''))
+        if kind == 'rebuild':
+            cur = s2
+            rebuilds += 1
+        d = diff_obs(base_obs, o2)
+        if d is not None:
+            d['probe_tag'] = meta[d['probe']].get('tag') if 'probe' in d else None
+            ctx.failure('storage operation changes the schema: ' + name + ': ' + d['what'], dict(fail_case, **scase), d)
+        if v2['builds'] and model_build:
+            # (once another namespace is registered the staged list is longer than the base's: self-check only)
+            check_model_build(ctx, batch, scase, v2, None if {'register-namespace+build', 'instance-schemaLocation+build'} & set(done)
+                              else base_view)
+        if tie and kind != 'same':
+            ep.new_step()
+            steps.append((kind, registry_view(s2, ep), o2, meta))
+        if tie and kind != 'rebuild' and last_cur is not None:
+            # copy / maps.copy / pickle must leave the object they were applied to alone
+            now = registry_view(cur, ep, touch=False)
+            for key in ('store', 'idents', 'subst', 'keyrefs', 'inherited'):
+                if now[key] != last_cur[key]:
+                    ctx.mismatch('history: ' + name + ' changed the registries of the schema it was applied to: ' + key,
+                                 scase, now[key][:12], last_cur[key][:12])
+            last_cur = now
+        elif tie and kind == 'rebuild':
+            last_cur = steps[-1][1]
+    if done and cur is not None and done[-1] not in REBUILDS:
+        # … and its behaviour: the object the history was applied to, once more, at the end
+        oe = observe(cur, probes)
+        d = diff_obs(base_obs, oe)
+        ctx.case(dict(case, storage='(the original after the history)', history=list(done)), nontrivial,
+                 tag='storage:original-after-history')
+        if d is not None:
+            d['probe_tag'] = meta[d['probe']].get('tag') if 'probe' in d else None
+            ctx.failure('a history of storage operations changes the schema object it was applied to: ' + d['what'],
+                        dict(fail_case, **dict(case, storage='(original)', history=list(done))), d)
+    if env.get('dyn_raised'):
+        ctx.count('storage:instance-schemaLocation: the triggering validation itself raised', env['dyn_raised'])
+        note = ('side observation (not C09): an instance validated with use_location_hints=True whose child element carries '
+                'an xsi:schemaLocation hint makes the validator rebuild the maps in the middle of the validation; the '
+                'running validation then raises ' + env['dyn_raised_what'])
+        if not any(n.startswith('side observation (not C09): an instance validated') for n in ctx.notes):
+            ctx.notes.append(note)
+    if env.get('dyn_inert'):
+        ctx.count('storage:instance-schemaLocation did not trigger a rebuild (explicit rebuild instead)', env['dyn_inert'])
+    if tie and len(steps) > 1:
+        check_registries(ctx, batch, dict(case, history=list(done)), steps)
+        for k, st in enumerate(steps):
+            if st[1]['memo'] != steps[0][1]['memo'] or not all(v is True for _, v in st[1]['memo'][:2]):
+                ctx.mismatch('history: cached properties of the maps object after the step [expected: the components '
+                             'the maps hold now; same values as after the first build]',
+                             dict(case, history=list(done), step=k), st[1]['memo'], steps[0][1]['memo'])
+            if st[1]['inherited'] != st[1]['inherited_expected']:
+                ctx.mismatch('history: registry entries inherited from the ancestors (meta-schema) after the step '
+                             '[expected: every entry of the ancestors, as the ancestors\' own objects]',
+                             dict(case, history=list(done), step=k), st[1]['inherited'][:12], st[1]['inherited_expected'][:12])
+
+
+_DYN: dict = {}
+
+
+def dyn_file() -> str:
+    """the schema document of DYN_NS (one file per run, outside the arrangement directories)"""
+    if 'path' not in _DYN or not os.path.exists(_DYN['path']):
+        d = tempfile.mkdtemp(prefix='c09-dyn-')
+        _DYN['dir'] = d
+        _DYN['path'] = os.path.join(d, 'dyn.xsd')
+        with open(_DYN['path'], 'w') as f:
+            f.write(DYN_XSD)
+    return _DYN['path']
+
+
 def one_schema(ctx: Ctx, drv: Optional[Driver], batch: Batch, idx: int, tmp: str, size: int,
-               n_perm: int, n_split: int, n_roots: int) -> None:
+               n_perm: int, n_split: int, n_roots: int, plan: Optional[list] = None, xsd11: Optional[bool] = None) -> None:
     rng = random.Random(ctx.rng.getrandbits(64))
     sc = Schema(rng, size)
+    if xsd11 is None:
+        xsd11 = rng.random() < 0.25
+    cls = 'XMLSchema11' if xsd11 else 'XMLSchema10'
+    feats = Features(sc, rng, xsd11, plan)
+    feats.install()
+    for t in feats.tags:
+        ctx.count(t)
+    ctx.count('processor:' + cls)
     arrs = arrangements(sc, rng, n_perm, n_split)
     probes: list[str] = []
+    meta: list[dict] = []
     for r in rng.sample(sc.roots(), min(n_roots, len(sc.roots()))):
         for m in (None, 'value', 'drop', 'extra', 'attr'):
             probes.append(sc.instance(r, m))
+            meta.append({'tag': 'generated instance' + (': mutation ' + m if m else ''), 'block': 'generic'})
+    for pr in feats.probes:
+        probes.append(pr['xml'])
+        meta.append({k: v for k, v in pr.items() if k != 'xml'})
     base_obs = None
     base_view = None
     texts0 = None
@@ -529,10 +805,11 @@ def one_schema(ctx: Ctx, drv: Optional[Driver], batch: Batch, idx: int, tmp: str
         root = os.path.join(tmp, f's{idx}', f'a{ai}')
         written = write_arrangement(sc, arr, root)
         case = {'schema': idx, 'arrangement': {k: arr[k] for k in ('kind', 'topology', 'imports', 'open')},
-                'spells': arr['spells'][:4], 'parts': [len(p) for p in arr['parts']]}
+                'spells': arr['spells'][:4], 'parts': [len(p) for p in arr['parts']], 'class': cls,
+                'registry': feats.plan}
         src = open_source(written['main'], arr['open'])
         try:
-            schema, view = build_real(src)
+            schema, view = build_real(src, cls=cls)
         except Exception as e:   # noqa
             rejected.append((case, written['files'], arr['open'], {'error': type(e).__name__, 'message': norm_text(str(e))[:400]}))
             ctx.count('arrangement rejected')
@@ -543,10 +820,14 @@ def one_schema(ctx: Ctx, drv: Optional[Driver], batch: Batch, idx: int, tmp: str
             verdicts = {bool(p['errors']) for p in obs['probes']}
             ctx.count('probes:valid', sum(1 for p in obs['probes'] if not p['errors']))
             ctx.count('probes:invalid', sum(1 for p in obs['probes'] if p['errors']))
+            for m, p in zip(meta, obs['probes']):
+                if m['block'] != 'generic':
+                    ctx.count('probe[' + m['tag'] + ']:' + ('invalid' if p['errors'] else 'valid'))
             both = len(verdicts) == 2
         else:
             d = diff_obs(base_obs, obs)
             if d is not None:
+                d['probe_tag'] = meta[d['probe']].get('tag') if 'probe' in d else None
                 ctx.failure('arrangement changes the schema: ' + d['what'],
                             dict(case, base_files=texts0, files=written['files'], probes=probes, open=arr['open']), d)
         nontrivial = nested_enter(view['events']) and both
@@ -554,29 +835,44 @@ def one_schema(ctx: Ctx, drv: Optional[Driver], batch: Batch, idx: int, tmp: str
         ctx.count('forward-refs-resolved-on-demand' if nested_enter(view['events']) else 'no-forward-ref')
         check_model_build(ctx, batch, case, view, base_view if view is not base_view else None)
         location_checks(ctx, batch, case, written, schema)
-        # storage variants on this arrangement (cheap: only on the base and one split)
-        if view is base_view or arr['kind'].startswith('split') and ai == len(arrs) - 1:
-            for name, make in storage_variants(schema):
-                scase = dict(case, storage=name)
-                try:
-                    with Recorder() as rec:
-                        s2 = make()
-                    v2 = rec.view(s2.maps)
-                    o2 = observe(s2, probes)
-                except Exception as e:   # noqa
-                    ctx.failure('storage operation fails: ' + name, dict(scase, base_files=texts0, files=written['files'], probes=probes, open=arr['open']),
-                                {'error': type(e).__name__, 'message': str(e)[:300]})
-                    continue
-                d = diff_obs(base_obs, o2)
-                ctx.case(scase, nontrivial, tag='storage:' + name)
-                if d is not None:
-                    ctx.failure('storage operation changes the schema: ' + name + ': ' + d['what'],
-                                dict(scase, base_files=texts0, files=written['files'], probes=probes, open=arr['open']), d)
-                if v2['builds']:
-                    check_model_build(ctx, batch, scase, v2, base_view)
+        # histories of storage operations on this arrangement: the full one on the base, a seeded one on the last split
+        is_base = view is base_view
+        if is_base or ai == len(arrs) - 1:
+            # the same documents loaded first and built later (build=False, then build())
+            dcase = dict(case, storage='deferred-build')
+            try:
+                import xmlschema
+                with Recorder() as rec:
+                    sd = getattr(xmlschema, cls)(src, build=False)
+                    pre = sd.built
+                    sd.build()
+                od = observe(sd, probes)
+                dd = diff_obs(base_obs, od)
+                ctx.case(dcase, nested_enter(view['events']) and both, tag='storage:deferred-build' + ('' if not pre else '/was-built-anyway'))
+                if dd is not None:
+                    dd['probe_tag'] = meta[dd['probe']].get('tag') if 'probe' in dd else None
+                    ctx.failure('loading first and building later changes the schema: ' + dd['what'],
+                                dict(dcase, base_files=texts0, files=written['files'], probes=probes, open=arr['open']), dd)
+                vd = rec.view(sd.maps)
+                if vd['builds']:
+                    check_model_build(ctx, batch, dcase, vd, base_view)
+            except Exception as e:   # noqa
+                ctx.failure('loading first and building later fails', dict(dcase, base_files=texts0, files=written['files'],
+                                                                           probes=probes, open=arr['open']),
+                            {'error': type(e).__name__, 'message': norm_text(str(e))[:300]})
+        if is_base or arr['kind'].startswith('split') and ai == len(arrs) - 1:
+            history = FULL_HISTORY if is_base else random_history(rng, ctx.pick(3, 5))
+            if is_base and not ctx.quick():
+                history = FULL_HISTORY + random_history(rng, 4)
+            fail_case = dict(case, base_files=texts0, files=written['files'], probes=probes, open=arr['open'])
+            run_history(ctx, batch, schema, history, case, base_obs, probes, meta, fail_case, base_view, nontrivial,
+                        tie=True)
     if base_obs is None:
         ctx.count('generated schema rejected in every arrangement')
         ctx.extra['schemas_rejected'] = ctx.extra.get('schemas_rejected', 0) + 1
+        ctx.extra.setdefault('rejected_samples', [])
+        if len(ctx.extra['rejected_samples']) < 3 and rejected:
+            ctx.extra['rejected_samples'].append({'case': rejected[0][0], 'error': rejected[0][3]})
     else:
         ctx.extra['schemas_built'] = ctx.extra.get('schemas_built', 0) + 1
         for case, files, how, err in rejected:
@@ -668,7 +964,7 @@ def build_any(path: str):
         return xmlschema.XMLSchema11(path), xmlschema.XMLSchema11
 
 
-def corpus(ctx: Ctx, tmp: str) -> None:
+def corpus(ctx: Ctx, tmp: str, batch: Optional[Batch] = None) -> None:
     base = REPO / 'tests' / 'test_cases'
     usable = 0
     for ci, (rel, xmls) in enumerate(corpus_list(ctx)):
@@ -680,7 +976,7 @@ def corpus(ctx: Ctx, tmp: str) -> None:
         d = os.path.join(tmp, f'corpus{ci}')
         shutil.copytree(src.parent, os.path.join(d, 'orig'))
         if arrangements_of(ctx, d, src.parent, src.name, [str(src.parent / x) for x in xmls if (src.parent / x).exists()],
-                           rel, ctx.pick(3, 8)):
+                           rel, ctx.pick(3, 8), batch):
             usable += 1
 
 
@@ -725,7 +1021,100 @@ HEADER_FAMILY = [
 ]
 
 
-def header_family(ctx: Ctx, tmp: str) -> None:
+# schema documents whose components are SHARED between several users or resolved through the whole set of global
+# declarations (not through a staged name lookup): wildcards of referenced attribute groups, `##defined`,
+# strict/lax wildcards that look the instance name up in the global maps.  `forced` arrangements are replayed
+# on every run besides the seeded ones: (document order of the global names, names moved to the included part).
+F1_NAME = 'attribute wildcard of a referenced group under an extension'
+F2_NAME = "notQName='##defined' attribute wildcard (1.1)"
+REGISTRY_FAMILY = [
+    (F1_NAME, '''<xs:schema xmlns:xs="http://www.w3.org/2001/XMLSchema" targetNamespace="urn:h" xmlns:h="urn:h" elementFormDefault="qualified">
+ <xs:attributeGroup name="AG"><xs:anyAttribute namespace="urn:x" processContents="skip"/></xs:attributeGroup>
+ <xs:complexType name="Base"><xs:anyAttribute namespace="urn:y" processContents="skip"/></xs:complexType>
+ <xs:complexType name="Ext"><xs:complexContent><xs:extension base="h:Base"><xs:attributeGroup ref="h:AG"/></xs:extension></xs:complexContent></xs:complexType>
+ <xs:complexType name="Other"><xs:attributeGroup ref="h:AG"/><xs:anyAttribute namespace="##any" processContents="skip"/></xs:complexType>
+ <xs:element name="o" type="h:Other"/>
+ <xs:element name="e" type="h:Ext"/>
+</xs:schema>''', ['<h:o xmlns:h="urn:h" xmlns:y="urn:y" y:a="1"/>',
+                  '<h:o xmlns:h="urn:h" xmlns:x="urn:x" x:a="1"/>',
+                  '<h:e xmlns:h="urn:h" xmlns:x="urn:x" xmlns:y="urn:y" x:a="1" y:b="2"/>',
+                  '<h:e xmlns:h="urn:h" xmlns:z="urn:z" z:a="1"/>'],
+     [{'order': ['AG', 'Base', 'Other', 'Ext', 'o', 'e'], 'part': []},
+      {'order': ['Other', 'o', 'e', 'AG', 'Base', 'Ext'], 'part': ['AG', 'Base', 'Ext']}]),
+    (F2_NAME, '''<xs:schema xmlns:xs="http://www.w3.org/2001/XMLSchema" targetNamespace="urn:h" xmlns:h="urn:h" elementFormDefault="qualified">
+ <xs:complexType name="T"><xs:anyAttribute notQName="##defined" processContents="lax"/></xs:complexType>
+ <xs:attribute name="ga" type="xs:int"/>
+ <xs:attribute name="gb" type="xs:string"/>
+ <xs:element name="r" type="h:T"/>
+ <xs:element name="s"><xs:complexType><xs:attribute ref="h:ga"/><xs:anyAttribute namespace="##other" processContents="lax"/></xs:complexType></xs:element>
+</xs:schema>''', ['<h:r xmlns:h="urn:h" h:ga="1"/>', '<h:r xmlns:h="urn:h" h:gb="x" h:other="1"/>',
+                  '<h:r xmlns:h="urn:h" h:other="x"/>', '<h:s xmlns:h="urn:h" h:ga="1"/>'],
+     [{'order': ['T', 'r', 's', 'ga', 'gb'], 'part': ['ga', 'gb']},
+      {'order': ['ga', 'T', 'r', 's', 'gb'], 'part': ['T', 'r', 's', 'gb']}]),
+    ("element wildcards resolved through the global maps: strict / lax / notQName='##defined' (1.1)", '''<xs:schema xmlns:xs="http://www.w3.org/2001/XMLSchema" targetNamespace="urn:h" xmlns:h="urn:h" elementFormDefault="qualified">
+ <xs:element name="box"><xs:complexType><xs:sequence>
+   <xs:any namespace="##targetNamespace" processContents="strict" minOccurs="0" maxOccurs="2"/>
+   <xs:element name="sep" type="xs:string"/>
+   <xs:any namespace="##any" notQName="##defined" processContents="lax" minOccurs="0" maxOccurs="unbounded"/>
+ </xs:sequence><xs:anyAttribute namespace="##targetNamespace" processContents="lax"/></xs:complexType></xs:element>
+ <xs:element name="g1" type="xs:int"/>
+ <xs:element name="g2" type="h:G2"/>
+ <xs:complexType name="G2"><xs:sequence><xs:element ref="h:g1" minOccurs="0"/></xs:sequence></xs:complexType>
+ <xs:attribute name="ga" type="xs:int"/>
+</xs:schema>''', ['<h:box xmlns:h="urn:h" h:ga="1"><h:g1>1</h:g1><h:g2><h:g1>2</h:g1></h:g2><h:sep/><h:free/></h:box>',
+                  '<h:box xmlns:h="urn:h" h:ga="x"><h:g1>x</h:g1><h:sep/><h:g2/></h:box>',
+                  '<h:box xmlns:h="urn:h"><h:unknown/><h:sep/></h:box>'],
+     [{'order': ['box', 'G2', 'ga', 'g1', 'g2'], 'part': ['g1', 'g2', 'ga']}]),
+]
+
+
+def known_match(case: dict, detail: dict) -> Optional[str]:
+    """`detail` = the difference between the original document and one arrangement of it (diff_obs).  Returns the
+    id of the listed finding of notes/findings/C09.json that explains exactly this difference, else None."""
+    if not isinstance(detail, dict) or detail.get('what') != 'errors of a probe instance differ':
+        return None
+    fam = case.get('corpus', '')
+
+    def only_difference(needle: str) -> bool:
+        a, b = detail['base'], detail['variant']
+        extra = [e for e in a if e not in b] + [e for e in b if e not in a]
+        return bool(extra) and all(len(e) == 3 and needle in e[2] and 'not allowed' in e[2] for e in extra)
+    if fam == 'registry-family: ' + F1_NAME and detail.get('probe') == 0 and only_difference("'{urn:y}a'"):
+        # C09-F1: whether the wildcard of type Other admits urn:y depends on Ext having been built before it
+        return 'C09-F1'
+    if fam == 'registry-family: ' + F2_NAME and case.get('kind') == 'split2' and detail.get('probe') in (0, 1) \
+            and only_difference("'{urn:h}g"):
+        # C09-F2: a global attribute declared in ANOTHER document of the same namespace is not "##defined"
+        return 'C09-F2'
+    return None
+
+
+def load_findings(ctx: Ctx) -> None:
+    if FINDINGS_FILE.exists():
+        have = {e['id'] for e in ctx.known}
+        for e in json.loads(FINDINGS_FILE.read_text()).get('findings', []):
+            if e['id'] not in have:
+                ctx.known.append(e)
+
+
+def registry_family(ctx: Ctx, tmp: str, batch: Optional[Batch] = None) -> None:
+    from pathlib import Path
+    for k, (name, xsd, docs, forced) in enumerate(REGISTRY_FAMILY):
+        d = os.path.join(tmp, f'reg{k}')
+        orig = os.path.join(d, 'orig')
+        os.makedirs(orig)
+        with open(os.path.join(orig, 'main.xsd'), 'w') as f:
+            f.write(xsd)
+        probes = []
+        for j, x in enumerate(docs):
+            pth = os.path.join(orig, f'probe{j}.xml')
+            with open(pth, 'w') as f:
+                f.write(x)
+            probes.append(pth)
+        arrangements_of(ctx, d, Path(orig), 'main.xsd', probes, 'registry-family: ' + name, ctx.pick(6, 16), batch, forced)
+
+
+def header_family(ctx: Ctx, tmp: str, batch: Optional[Batch] = None) -> None:
     from pathlib import Path
     for k, (name, xsd, docs) in enumerate(HEADER_FAMILY):
         d = os.path.join(tmp, f'hdr{k}')
@@ -739,10 +1128,14 @@ def header_family(ctx: Ctx, tmp: str) -> None:
             with open(pth, 'w') as f:
                 f.write(x)
             probes.append(pth)
-        arrangements_of(ctx, d, Path(orig), 'main.xsd', probes, 'header-family: ' + name, ctx.pick(6, 16))
+        arrangements_of(ctx, d, Path(orig), 'main.xsd', probes, 'header-family: ' + name, ctx.pick(6, 16), batch)
 
 
-def arrangements_of(ctx: Ctx, d: str, srcdir: Any, srcname: str, probes: list, rel: str, n_variants: int) -> bool:
+CORPUS_HISTORY = ['pickle', 'clear+build', 'pickle', 'clear+schema.build', 'maps.copy+build']
+
+
+def arrangements_of(ctx: Ctx, d: str, srcdir: Any, srcname: str, probes: list, rel: str, n_variants: int,
+                    batch: Optional[Batch] = None, forced: Optional[list] = None) -> bool:
     """permutations and include-splits (same header) of one schema document, compared with the original"""
     import lxml.etree as ET
     main0 = os.path.join(d, 'orig', srcname)
@@ -752,11 +1145,18 @@ def arrangements_of(ctx: Ctx, d: str, srcdir: Any, srcname: str, probes: list, r
         ctx.count('corpus: base does not build (skipped)')
         return False
     o0 = observe(s0, probes)
+    # building twice / pickle / copy of the schema as it stands in the corpus (identity constraints, notations,
+    # substitution groups, redefinitions … of the hand-written test schemas)
+    if batch is not None:
+        hcase = {'corpus': rel, 'class': cls.__name__}
+        run_history(ctx, batch, s0, CORPUS_HISTORY, hcase, o0, probes, [{'block': 'corpus', 'tag': os.path.basename(x)} for x in probes],
+                    dict(hcase, probe_files=probes), None, True, tie=True, model_build=False)
     tree = ET.parse(main0)
     rootel = tree.getroot()
     if any(c.tag in (XSD + 'redefine', XSD + 'override') for c in rootel):
         return True
-    for vi in range(n_variants):
+    forced = forced or []
+    for vi in range(n_variants + len(forced)):
         t = ET.parse(main0)
         r = t.getroot()
         globs = [c for c in r if c.tag in GLOBAL_TAGS]
@@ -765,13 +1165,17 @@ def arrangements_of(ctx: Ctx, d: str, srcdir: Any, srcname: str, probes: list, r
             break
         for c in globs:
             r.remove(c)
-        ctx.rng.shuffle(globs)
+        fz = forced[vi - n_variants] if vi >= n_variants else None
+        if fz is None:
+            ctx.rng.shuffle(globs)
+        else:
+            globs.sort(key=lambda c: fz['order'].index(c.get('name')))
         vd = os.path.join(d, f'v{vi}')
         shutil.copytree(srcdir, vd)
         kind = 'perm'
-        if vi % 2 == 1:
+        if (vi % 2 == 1 and fz is None) or (fz is not None and fz['part']):
             # move a suffix of the declarations into a new included document with the same header
-            cut = ctx.rng.randint(1, len(globs) - 1)
+            cut = ctx.rng.randint(1, len(globs) - 1) if fz is None else len(globs) - len(fz['part'])
             t2 = ET.parse(main0)
             r2 = t2.getroot()
             for c in list(r2):
@@ -795,6 +1199,8 @@ def arrangements_of(ctx: Ctx, d: str, srcdir: Any, srcname: str, probes: list, r
             r.append(c)
         t.write(os.path.join(vd, srcname))
         case = {'corpus': rel, 'variant': vi, 'kind': kind, 'class': cls.__name__}
+        if fz is not None:
+            case['forced'] = fz
         try:
             s1 = cls(os.path.join(vd, srcname))
         except Exception as e:   # noqa
@@ -806,7 +1212,11 @@ def arrangements_of(ctx: Ctx, d: str, srcdir: Any, srcname: str, probes: list, r
         ctx.case(case, True, tag='corpus:' + kind)
         dd = diff_obs(o0, o1)
         if dd is not None:
-            ctx.failure('arrangement changes a corpus schema: ' + dd['what'], case, dd)
+            fid = known_match(case, dd)
+            if fid:
+                ctx.known_hit(fid, case, dd)
+            else:
+                ctx.failure('arrangement changes a corpus schema: ' + dd['what'], case, dd)
     return True
 
 
@@ -817,10 +1227,13 @@ def run(ctx: Ctx, driver_ok: bool) -> None:
     drv = Driver('drv_c09') if driver_ok else None
     tmp = tempfile.mkdtemp(prefix='c09-')
     batch = Batch()
+    load_findings(ctx)
     try:
         ill_formed(ctx, drv, batch, tmp)
-        header_family(ctx, tmp)
-        corpus(ctx, tmp)
+        header_family(ctx, tmp, batch)
+        registry_family(ctx, tmp, batch)
+        corpus(ctx, tmp, batch)
+        flush(ctx, batch, drv)
         n = ctx.pick(70, 900)
         for i in range(n):
             size = ctx.rng.choice([8, 12, 16, 24, 32])
@@ -833,6 +1246,9 @@ def run(ctx: Ctx, driver_ok: bool) -> None:
         flush(ctx, batch, drv)
     finally:
         shutil.rmtree(tmp, ignore_errors=True)
+        if _DYN.get('dir'):
+            shutil.rmtree(_DYN['dir'], ignore_errors=True)
+            _DYN.clear()
     if ctx.extra.get('schemas_built', 0) < 0.8 * (ctx.extra.get('schemas_built', 0) + ctx.extra.get('schemas_rejected', 0)) \
             or not ctx.extra.get('schemas_built'):
         # legal generated schemas are refused wholesale: nothing was compared, so nothing is established
@@ -840,9 +1256,11 @@ def run(ctx: Ctx, driver_ok: bool) -> None:
         ctx.broken.append('precondition of the correspondence: the real code rejects the generated (legal) schemas in '
                           'every arrangement (%d of %d)' % (ctx.extra.get('schemas_rejected', 0),
                                                             ctx.extra.get('schemas_rejected', 0) + ctx.extra.get('schemas_built', 0)))
-    ctx.extra['explanation'] = ('metamorphic: every arrangement compared with the base arrangement of the same '
-                                'schema on the real code; model tie: staged list, build trace, duplicate errors, '
-                                'normalised locations, include registration order')
+    ctx.extra['explanation'] = ('metamorphic: every arrangement and every step of a storage history compared with the '
+                                'base arrangement of the same schema on the real code; model tie: staged list, build '
+                                'trace, duplicate errors, normalised locations, include registration order, and after '
+                                'every build of a history the registries (stores, identities, substitution groups, '
+                                'keyref bindings, cached views) with the generation of every object')
 
 
 def search(ctx: Ctx) -> None:
@@ -851,7 +1269,8 @@ def search(ctx: Ctx) -> None:
     batch = Batch()
     try:
         for i in range(ctx.pick(60, 150)):
-            one_schema(ctx, None, batch, 10_000 + i, tmp, ctx.rng.choice([12, 24, 40]), 4, 6, 4)
+            one_schema(ctx, None, batch, 10_000 + i, tmp, ctx.rng.choice([12, 24, 40]), 4, 6, 4,
+                       plan=['identity', 'identity', 'poly', 'notation'], xsd11=(i % 2 == 1))
             batch.reqs, batch.pend = [], []
             if ctx.failures or ctx.time_left() < 60:
                 break
@@ -878,17 +1297,33 @@ def replay(ctx: Ctx, obj: dict) -> int:
             main = os.path.join(root, 'main.xsd')
             src = open_source(main, case.get('open', 'abs')) if tag == 'files' else main
             try:
-                schema, view = build_real(src)
+                schema, view = build_real(src, cls=case.get('class', 'XMLSchema10'))
             except Exception as e:   # noqa
                 print(f'{tag}: build fails: {type(e).__name__}: {str(e)[:300]}')
                 res.append(None)
                 continue
-            if tag == 'files' and case.get('storage'):
-                try:
-                    schema = dict(storage_variants(schema))[case['storage']]()
-                except Exception as e:   # noqa
-                    print(f"storage operation {case['storage']} fails: {type(e).__name__}: {str(e)[:300]}")
-                    return 1
+            if tag == 'files' and case.get('storage') == 'deferred-build':
+                import xmlschema
+                schema = getattr(xmlschema, case.get('class', 'XMLSchema10'))(src, build=False)
+                schema.build()
+            elif tag == 'files' and case.get('storage'):
+                # the whole history up to the failing operation (in-place operations change `schema`)
+                renv: dict = {'dyn_xml': None}
+                o0 = observe(schema, case.get('probes', []))
+                for x, o in zip(case.get('probes', []), o0['probes']):
+                    if not o['errors'] and renv['dyn_xml'] is None:
+                        renv['dyn_xml'] = dynamic_instance(x, dyn_file())
+                for name in case.get('history') or [case['storage']]:
+                    try:
+                        s2, kind = OPS[name](schema, renv)
+                    except Exception as e:   # noqa
+                        print(f"storage operation {name} fails: {type(e).__name__}: {str(e)[:300]}")
+                        return 1
+                    if kind == 'rebuild':
+                        schema = s2
+                if case['storage'] != '(original)':
+                    schema = s2
+                print('history applied on the variant:', case.get('history') or [case['storage']])
             res.append(observe(schema, case.get('probes', [])))
         if res[0] is None or res[1] is None:
             print('REAL CODE: one arrangement is rejected, the other accepted' if (res[0] is None) != (res[1] is None)
